@@ -344,6 +344,21 @@ def k1():
     return py != lp, f"python coefficient {py} vs solver coefficient {lp}"
 
 
+@case("F15")
+def f15():
+    m = load_model("textbook")
+    r = m.reactions.PGI
+    before = {k.id: v for k, v in r.metabolites.items()}
+    try:
+        with m:
+            r.add_metabolites({m.metabolites.atp_c: 1.0}, combine=False)
+        raised = False
+    except KeyError:
+        raised = True
+    after = {k.id: v for k, v in r.metabolites.items()}
+    return raised or before != after, f"raised KeyError: {raised}; restored after block: {before == after}"
+
+
 @case("K2")
 def k2():
     m = mini()
